@@ -1023,6 +1023,7 @@ KV = "nostr_relay/storage/kv.py"
 BASE = "nostr_relay/storage/base.py"
 
 MUTANTS = [
+    M("c01-bind-names-collide", "nostr_relay/storage/db.py", "        return sa.text(select), new_filters", "        bound = {}\n        for f_ in new_filters:\n            bound.update({})\n        return sa.text(select).bindparams(**bound), new_filters", "C01.bindnames"),
     M("c01-single-query-skips-invalid", "nostr_relay/storage/db.py", "        nostr_queries = [NostrQuery.model_validate(q) for q in query_filters]", "        nostr_queries = [NostrQuery.model_validate(q) for q in query_filters if isinstance(q, dict)]", "C01.allfilters"),
     M("c01-delegation-found-decides", "nostr_relay/storage/base.py", "                if match:\n                    matched.add(True)", "                if has_delegation:\n                    matched.add(True)", "C01.hastag"),
     M("c01-skip-empty-id", "nostr_relay/storage/base.py", "        hexid = hexid.lower()\n", "        hexid = hexid.lower()\n        if not hexid:\n            continue\n", "C01.hextotal"),
